@@ -772,6 +772,17 @@ class Interp:
         if isinstance(obj, Opaque):
             return
         if getattr(obj, 'is_sarr', False):
+            cls = getattr(obj, 'cls', None)
+            if cls is not None and getattr(self, '_in_setattr', False) is not obj:
+                sa = self.class_getattr(cls, '__setattr__')
+                if isinstance(sa, FuncRef):
+                    prev = getattr(self, '_in_setattr', False)
+                    self._in_setattr = obj
+                    try:
+                        self.call_function(sa.bind(obj), [name, val], {})
+                    finally:
+                        self._in_setattr = prev
+                    return
             obj.attrs[name] = val          # attribute of an array object (variable metadata)
             return
         raise Unsupported('setattr %s on %r' % (name, obj))
